@@ -429,7 +429,7 @@ def span_match(exp, got):
 def compare_job(args):
     """(separate process) lock-step comparison of one recording with TLC's predictions.
     Returns dict(mismatch=None|{...}, steps, probes, per_action, probes_rejected)."""
-    out_path, exp_path, assertions, nd_probe_mod = args
+    out_path, exp_path, assertions = args
     res = dict(mismatch=None, steps=0, probes=0, probes_rejected=0, per_action={}, crash=None, cleanup_steps=0)
     try:
         fo = open(out_path)
@@ -449,7 +449,7 @@ def compare_job(args):
 
     def mism(why, ev, exp):
         if res["mismatch"] is None:
-            res["mismatch"] = {"why": why, "event": ev, "predicted": exp, "behaviour_so_far": history[-40:],
+            res["mismatch"] = {"why": why, "event": ev, "predicted": exp, "behaviour_so_far": history[-400:],
                                "recording": out_path, "assertions": assertions}
 
     exp = None
@@ -558,6 +558,68 @@ def validate_job(args):
     return out
 
 
+def localise(exe, job, cm, d):
+    """A sampled probe disagreed: find the behaviour that caused it and re-run it with both
+    probes after every step.  Returns (description, payload) of the first disagreeing
+    prefix as judged by PtrTrace, or None."""
+    kind, label, build, argv, out, expf = job
+    base = expf[:-4]
+    with open(base + ".in") as f:
+        lin = f.readlines()
+    with open(expf) as f:
+        lexp = f.readlines()
+    groups = []           # per behaviour: list of (in line, exp line)
+    for a, b in zip(lin, lexp):
+        if a.startswith("B"):
+            groups.append([])
+        groups[-1].append((a, b))
+    bid_fail = cm["event"].get("bid")
+    upto = [g for g in groups if int(g[0][0].split()[1]) <= bid_fail]
+
+    def rerun(tag, gs, all_steps):
+        pin = "%s.loc%s.in" % (base, tag)
+        with open(pin, "w") as fi, open(pin[:-3] + ".exp", "w") as fe:
+            for g in gs:
+                for a, b in g:
+                    if a.startswith("S"):
+                        a = a.rsplit(" ", 1)[0] + (" 3\n" if all_steps else " 0\n")
+                    elif a.startswith("E"):
+                        a = "E 3\n"
+                    fi.write(a)
+                    fe.write(b)
+        rec = "%s.loc%s.%s.ndjson" % (base, tag, build)
+        av = list(argv)
+        av[av.index("--replay") + 1] = pin
+        av[av.index("--out") + 1] = rec
+        if "--probe-mod" in av:
+            k = av.index("--probe-mod")
+            del av[k:k + 2]
+        rc, err = run_driver(exe, av)
+        if rc not in (0, 3):
+            return None, None, None
+        return compare_job((rec, pin[:-3] + ".exp", build == "dbg")), rec, pin
+
+    # which behaviour leaves the registry wrong?  (probe at the end of every behaviour)
+    c1, _, _ = rerun("A", upto, False)
+    if c1 is None or c1["mismatch"] is None:
+        return None
+    ev = c1["mismatch"]["event"] or {}
+    culprit = ev.get("bid", bid_fail)
+    g = [x for x in groups if int(x[0][0].split()[1]) == culprit]
+    c2, rec, pin = rerun("B", g, True)
+    if c2 is None or c2["mismatch"] is None:
+        return None
+    v = validate_job(rec)
+    if v["accepted"]:
+        return None
+    m = c2["mismatch"]
+    seq = m["behaviour_so_far"]
+    desc = "%s build, %s: after the call sequence %s : %s (PtrTrace rejects the recording at line %d)" % (
+        "assertion" if build == "dbg" else "NDEBUG", label, json.dumps(seq[-12:]), m["why"], v["line"])
+    return desc, {"minimal_behaviour_input": keep(pin), "minimal_recording": keep(rec), "call_sequence": seq,
+                  "rejected_event": v["event"], "line": v["line"], "why": m["why"], "predicted": m["predicted"]}
+
+
 def trace_dir(prop):
     d = os.path.join(vlib.CACHE, "traces", "%s_%d" % (prop, os.getpid()))
     shutil.rmtree(d, ignore_errors=True)
@@ -627,19 +689,28 @@ def run(prop, tier, seed):
         tB = time.time()
         log("[C17] phase B (%d driver runs) %.0fs" % (len(jobs), tB - tA))
 
-        # ---- phase C: lock-step comparison (replays) and TLC trace validation (everything)
-        with cf.ProcessPoolExecutor(max_workers=nproc, mp_context=mp) as cpool, cf.ThreadPoolExecutor(max_workers=max(4, nproc - 4)) as vpool:
-            cfs = [cpool.submit(compare_job, (j[4], j[5], j[2] == "dbg", tcfg["nd_probe_mod"])) if j[0] == "replay" else None
-                   for j in jobs]
-            vfs = [vpool.submit(validate_job, j[4]) if os.path.exists(j[4]) and os.path.getsize(j[4]) > 0 else None
-                   for j in jobs]
+        # ---- phase C: lock-step comparison (replays) and TLC trace validation
+        def wants_tv(idx, job):
+            if job[0] != "replay" or job[1] == "sim" or tcfg["tv_mod"] <= 1:
+                return True
+            return h32(seed, job[1], job[2], os.path.basename(job[4])) % tcfg["tv_mod"] == 0
+        with cf.ProcessPoolExecutor(max_workers=nproc, mp_context=mp) as cpool, \
+                cf.ThreadPoolExecutor(max_workers=max(4, nproc - 6)) as vpool:
+            have = [os.path.exists(j[4]) and os.path.getsize(j[4]) > 0 for j in jobs]
+            cfs = [cpool.submit(compare_job, (j[4], j[5], j[2] == "dbg")) if j[0] == "replay" and h else None
+                   for j, h in zip(jobs, have)]
+            vfs = [vpool.submit(validate_job, j[4]) if h and wants_tv(i, j) else None
+                   for i, (j, h) in enumerate(zip(jobs, have))]
             cmp_res = [f.result() if f else None for f in cfs]
+            # a comparison mismatch is judged by the trace specification
+            for i, (c, vf) in enumerate(zip(cmp_res, vfs)):
+                if c is not None and c["mismatch"] is not None and vf is None:
+                    vfs[i] = vpool.submit(validate_job, jobs[i][4])
             val_res = [f.result() if f else None for f in vfs]
-        for f in qf:
-            f.result()
         quiet = [f.result() for f in qf]
     tC = time.time()
-    log("[C17] phase C (comparison, trace validation) %.0fs" % (tC - tB))
+    log("[C17] phase C (comparison, trace validation of %d recordings) %.0fs"
+        % (sum(1 for v in val_res if v is not None), tC - tB))
 
     # ---- judgement
     steps = probes = probes_rej = 0
@@ -647,6 +718,7 @@ def run(prop, tier, seed):
     tv_states = tv_gen = 0
     tv_cov = {}
     traces_ok = 0
+    replays_ok = 0
     nviol = 0
     probes_by_build = {"dbg": 0, "ndebug": 0}
     for job, (rc, err), c, v in zip(jobs, drv_res, cmp_res, val_res):
@@ -656,12 +728,15 @@ def run(prop, tier, seed):
             raise vlib.CheckBroken("driver timeout: %s" % cmdline)
         if rc not in (0, 3):
             raise vlib.CheckBroken("driver failed rc=%s: %s\n%s" % (rc, cmdline, err))
-        if v is None:
+        if v is None and c is None:
             raise vlib.CheckBroken("no recording from: %s" % cmdline)
-        tv_states += v["states"]
-        tv_gen += v["generated"]
-        for k2, n2 in v["cov"].items():
-            tv_cov[k2] = tv_cov.get(k2, 0) + n2
+        if rc == 3 and (c is None or c["mismatch"] is None) and (v is None or v["accepted"]):
+            raise vlib.CheckBroken("driver crashed but nothing rejects its recording: %s\n%s" % (cmdline, err))
+        if v is not None:
+            tv_states += v["states"]
+            tv_gen += v["generated"]
+            for k2, n2 in v["cov"].items():
+                tv_cov[k2] = tv_cov.get(k2, 0) + n2
         if c is not None:
             steps += c["steps"]
             probes += c["probes"]
@@ -673,8 +748,13 @@ def run(prop, tier, seed):
         if cm is not None and v["accepted"]:
             raise vlib.CheckBroken("comparator reports a mismatch (%s) on a recording PtrTrace accepts: %s"
                                    % (cm["why"], out))
+        if v is None:
+            replays_ok += 1          # agreed with TLC's predictions step by step
+            continue
         if v["accepted"]:
             traces_ok += 1
+            if c is not None:
+                replays_ok += 1
             continue
         if v["violation"] not in (None, "postcondition"):
             what = "PtrTrace: %s of QsbrPtr violated on the recorded execution" % v["violation"]
@@ -689,9 +769,18 @@ def run(prop, tier, seed):
             "assertion" if build == "dbg" else "NDEBUG", kind, label, what, v["line"], json.dumps(v["event"])[:500])
         if cm is not None:
             desc += " | replay comparison: " + cm["why"]
+        loc = None
+        if cm is not None and kind == "replay" and nviol <= 2 and (cm.get("event") or {}).get("e") == "Probe" \
+                and tcfg["probe_mod"] > 1:
+            try:
+                loc = localise(exe[build], job, cm, d)
+            except (OSError, ValueError, KeyError) as ex:
+                log("[C17] localisation failed: %r" % (ex,))
+            if loc:
+                desc = loc[0]
         payload = {"build": build, "kind": kind, "instance": label, "recording": kept, "line": v["line"],
                    "rejected_event": v["event"], "preceding_events": v["context"], "driver_cmd": cmdline,
-                   "driver_input": kin, "comparison": cm,
+                   "driver_input": kin, "comparison": cm, "localised": loc[1] if loc else None,
                    "validate_cmd": "cd /verif/spec && TRACE=%s java -cp %s tlc2.TLC -workers 1 -deadlock -config "
                                    "cfg/PtrTrace/trace.cfg PtrTrace.tla" % (kept, vlib.TLA_CP)}
         rep.violation(desc, payload)
@@ -703,6 +792,7 @@ def run(prop, tier, seed):
         "states": states + tv_states,
         "transitions": trans + tv_gen,
         "traces_validated_against_impl": traces_ok,
+        "replay_recordings_agreeing_with_TLC_predictions": replays_ok,
         "samples": [g["sample"] for g in graphs + [sim] if g.get("sample")],
         "exhaustive": True,
         "model_instances": [{k2: g[k2] for k2 in ("name", "cfg", "distinct", "generated", "depth", "edges", "edges_covered",
@@ -739,22 +829,35 @@ def run(prop, tier, seed):
 
 
 def replay(prop, path):
-    """Re-validate the recording named by a replay file (and re-run the driver command)."""
+    """Re-execute what a replay file describes on the current tree (vlib.REPO): the driver
+    is rebuilt and run on the kept behaviour input (or with the same seed for a random
+    recording); the new recording is judged by PtrTrace."""
     with open(path) as f:
         payload = json.load(f)
-    cmd = payload.get("driver_cmd")
-    rec = payload.get("recording")
-    if cmd and payload.get("kind") == "random":
-        exes = vlib.build_many([dict(name="ptr_driver", harness_srcs=["ptr_driver.cpp"], config=payload["build"])])
-        argv = cmd.split()[1:]
-        rec = os.path.join(vlib.CACHE, "traces", "C17_replay_%d.ndjson" % os.getpid())
-        os.makedirs(os.path.dirname(rec), exist_ok=True)
-        argv[argv.index("--out") + 1] = rec
-        run_driver(exes[0], argv)
+    argv = payload["driver_cmd"].split()[1:]
+    exe = vlib.build_many([dict(name="ptr_driver", harness_srcs=["ptr_driver.cpp"], config=payload["build"])])[0]
+    d = trace_dir(prop)
+    rec = os.path.join(d, "replay.ndjson")
+    argv[argv.index("--out") + 1] = rec
+    if payload.get("kind") == "replay":
+        loc = payload.get("localised") or {}
+        src = loc.get("minimal_behaviour_input") or payload.get("driver_input")
+        if not src or not os.path.exists(src):
+            raise vlib.CheckBroken("behaviour input named by %s is gone" % path)
+        argv[argv.index("--replay") + 1] = src
+        if loc and "--probe-mod" in argv:
+            k = argv.index("--probe-mod")
+            del argv[k:k + 2]
+    rc, err = run_driver(exe, argv)
+    if rc not in (0, 3):
+        raise vlib.CheckBroken("driver failed rc=%s: %s" % (rc, err))
     v = validate_job(rec)
     if v["accepted"]:
-        print("recording accepted by PtrTrace")
+        print("recording of the re-execution accepted by PtrTrace")
+        shutil.rmtree(d, ignore_errors=True)
         return 0
     print("VIOLATION property=%s replay=%s" % (prop, path))
-    log("  rejected at line %s: %s" % (v["line"], json.dumps(v["event"])[:500]))
+    log("  PtrTrace rejects the re-execution at line %s: %s" % (v["line"], json.dumps(v["event"])[:500]))
+    log("  preceding events: %s" % json.dumps(v["context"])[:1500])
+    shutil.rmtree(d, ignore_errors=True)
     return 1
